@@ -28,6 +28,18 @@ CLAIMS = {
  "C09": ("abstract truth-table enumeration of every comparison closure over the order types (lt/eq/gt, length equality) of its compared pairs; syntactic alias tracking for stores through the key; table extraction for connectives, comparator complement, negation normal form and desugaring; dominance of lower/upper guards on the parsed prefix length",
          "Exhaustive for the finite abstraction of each leaf closure and connective (comparison-only code, so behaviour depends only on the order type): every (attribute, comparator) closure has the comparator's truth table on the attribute's own getter, with IP-family guard, and stores nothing through the key. Does not decide the truth of whole formulas on concrete keys nor the masking arithmetic.",
          "go/types; the abstraction is sound only for closures whose control flow is comparison-only - any other construct is reported as undecided (fails)"),
+ "C10": ("constant regexps of the operator grammar compiled and applied, at analysis time, to every spelling extracted from the help text (accepted under its own base operator, claimed by no other); guard dominance on token accesses; path rule on parseConditional",
+         "Decides the documented-spelling clause exactly for the tables as written, plus parser totality (no unguarded token access, errors and trailing tokens rejected). Meaning preservation / idempotence of the canonical form and behaviour on arbitrary strings are NOT decided.",
+         "go/types; Go regexp semantics (the same engine the program uses); help text must stay a constant string with the two operator tables"),
+ "C13": ("per-iteration path rule over TimeBinner.BinTime (exactly one MergeRow, label rebuilt by time.Unix before merging whenever the timestamp is set), field coverage of Counters.Add, guard dominance on user bin sizes",
+         "Decides the structural conditions for conservation and one-row-per-bin; the ceiling arithmetic of BinTimestamp and CalcTimeBinSize are NOT decided.",
+         "go/types + go/cfg; time.Unix yields the single Local location"),
+ "C14": ("exhaustive truth-table enumeration of the 14 comparator closures of results.By over the order type of their keys; lexicographic-chain / field-coverage rule on Labels.Less and Attributes.Less; time-equality rule; sort-dominates-limit",
+         "Decides that every comparator orders by the documented key with a fixed tie-break, that the tie-break consults every label/attribute field exactly once without == on time.Time, and that sorting precedes truncation. That sort.Sort realises the order is trusted.",
+         "go/types + go/cfg; frozen key table per (sort, direction)"),
+ "C17": ("constant-table extraction (switch / map literal) of String and FromString for the three enumerations, checked to be mutually inverse on every declared constant; struct-tag and source agreement of the auxiliary marshal structs",
+         "Exact for the enumeration clause (every value maps to its name and back). Round trips of whole Args/Statement/Result values are NOT decided.",
+         "go/types constant evaluation"),
  "C23": ("per-path packed-record layout extraction (index/slice/unsafe-cast/copy at cursor+const) with writer/reader table comparison",
          "Decides that every field LocalBuffer.Add stores lies inside the cursor stride, fields are disjoint, and Add/Next agree on offset, width, stride and version flag per role; refusal stores nothing. Exact for the layout clause (the one the defect F11 lived in); FIFO behaviour over operation sequences is not decided.",
          "go/types + go/cfg; gc/amd64 sizes for unsafe casts"),
